@@ -57,6 +57,7 @@ type Exec struct {
 	lits map[string]string
 	curPkg *types.Package
 	useLemmas []string
+	refHeaps map[string]bool
 }
 
 type toolLimit struct{ msg string }
@@ -318,11 +319,29 @@ func (x *Exec) heap(st *State, name, sort string) string {
 	if st.heaps["!havoc:"+name] != "" || st.heaps["!havoc:*"] != "" {
 		// havocked before its first use on this path
 		st.heaps[name] = x.freshSort(name, sort)
+		if ax := x.birthAxiom(name, st.heaps[name], sort, x.nextTerm(st)); ax != "" {
+			st.assume(ax)
+		}
 		return st.heaps[name]
 	}
 	x.Reg.Add(name, fmt.Sprintf("(declare-const %s %s)", name, sort))
+	if ax := x.birthAxiom(name, name, sort, x.alloc0()); ax != "" {
+		x.Reg.AddAxiom(name, name+"_born", "(assert "+ax+")")
+	}
 	st.heaps[name] = name
 	return name
+}
+
+// birthAxiom: every reference stored in heap version `term` (of heap `base`)
+// is below the allocation counter value `bound` at the time the version arose.
+func (x *Exec) birthAxiom(base, term, sort, bound string) string {
+	switch {
+	case sort == "(Array Int Slice)":
+		return fmt.Sprintf("(forall ((r Int)) (! (< (s_arr (select %s r)) %s) :pattern ((select %s r))))", term, bound, term)
+	case sort == "(Array Int Int)" && x.refHeaps[base]:
+		return fmt.Sprintf("(forall ((r Int)) (! (< (select %s r) %s) :pattern ((select %s r))))", term, bound, term)
+	}
+	return ""
 }
 
 func (x *Exec) setHeap(st *State, name, sort, term string) {
@@ -336,6 +355,9 @@ func (x *Exec) havocHeap(st *State, name string) {
 		return
 	}
 	st.heaps[name] = x.freshSort(name, sort)
+	if ax := x.birthAxiom(name, st.heaps[name], sort, x.nextTerm(st)); ax != "" {
+		st.assume(ax)
+	}
 }
 
 func structOf(t types.Type) (*types.Struct, bool) {
@@ -347,6 +369,13 @@ func (x *Exec) fieldHeapName(obj types.Type, field int) (string, string) {
 	st, _ := structOf(obj)
 	sn := x.Sorts.structName(obj)
 	fsort := x.Sorts.SortOf(st.Field(field).Type())
+	switch st.Field(field).Type().Underlying().(type) {
+	case *types.Pointer, *types.Map, *types.Chan:
+		if x.refHeaps == nil {
+			x.refHeaps = map[string]bool{}
+		}
+		x.refHeaps["H_"+strings.TrimPrefix(sn, "S_")+"_"+sanitize(st.Field(field).Name())] = true
+	}
 	return "H_" + strings.TrimPrefix(sn, "S_") + "_" + sanitize(st.Field(field).Name()), fmt.Sprintf("(Array Int %s)", fsort)
 }
 
@@ -543,6 +572,7 @@ func (x *Exec) load(st *State, p *Pointer) *Value {
 	}
 	v := &Value{T: t, Typ: p.Typ}
 	x.assumeTypeInv(st, v)
+	x.assumeAllocated(st, v)
 	return v
 }
 
@@ -629,6 +659,7 @@ func (x *Exec) VerifyFunc(fn *ssa.Function, fc *FuncContract, name string) (obls
 	for _, p := range fn.Params {
 		v := x.fresh(p.Name(), p.Type())
 		x.assumeTypeInv(st, v)
+		x.assumeAllocated(st, v)
 		fr.Regs[p] = v
 		fr.Params[p.Name()] = v
 		if _, ok := p.Type().Underlying().(*types.Pointer); ok {
@@ -643,6 +674,7 @@ func (x *Exec) VerifyFunc(fn *ssa.Function, fc *FuncContract, name string) (obls
 		cv := x.freshOrObj(st, fv.Name(), el)
 		st.cells[c] = cv
 		x.assumeTypeInv(st, cv)
+		x.assumeAllocated(st, cv)
 		fr.Regs[fv] = &Value{Typ: fv.Type(), Ptr: &Pointer{Kind: PCell, Cell: c, Typ: el}}
 		fr.Params[fv.Name()] = cv
 		if _, ok := el.Underlying().(*types.Pointer); ok {
@@ -961,6 +993,7 @@ func (x *Exec) havocLoop(st *State, fr *Frame, l *Loop) {
 			}
 		}
 	}
+	x.bumpNext(st)
 	x.havocClasses(st, ws.Classes)
 }
 
